@@ -5,10 +5,15 @@
     holds more than [hi] entries, and holds fewer than [lo] entries only with a sink, after
     reporting the count error (with the actual count and the parse span) as its last diagnostic;
     upper bound 0 returns the empty list without touching the lexer.
-    Partial: the segment structure itself (one entry per separator-delimited segment, the value or
+    On WELL-FORMED input ([wf_list]: the deliverable tokens read  item (sep item)* [sep]  up to an
+    abort token or the end, the item parser from the C06 core fragment) the unbounded list
+    combinators return exactly the item values, the returned lexer delivers the abort token next
+    (or nothing), and nothing is reported, with or without a sink: the stabilize / recover_default /
+    up_to wrappers and the trailing-item probe are transparent on that path ([C11_list_ok]).
+    Partial: the segment structure on MALFORMED input (one entry per separator-delimited segment, the value or
     the placeholder, one error per bad segment with its span inside the segment, the returned
     lexer's next token) is decided by the correspondence run and the python segment oracle only. *)
-From Tephra Require Import CLexer Run RunList.
+From Tephra Require Import MetricsSpec CLexer LexerFacts Run Peg RunCore RunList RunListOk.
 
 Theorem C11_loop_exits :
   forall runf n hi ab dflt item probe sepp c vals lx st k,
@@ -44,6 +49,40 @@ Theorem C11_upper_bound_zero :
   run (S f) (GListB lo (Some 0) a sep ab) lx c st = (ROk (VList []) lx, st).
 Proof. intros. reflexivity. Qed.
 Print Assumptions C11_upper_bound_zero.
+
+(** well-formed input *)
+Theorem C11_list_default_on_well_formed_input :
+  forall m, 1 <= tabw m -> forall t, wf_text t ->
+  forall a sep ab f0 F c lx ys st vs s2,
+  F = S (S (S f0)) ->
+  in_core a = true -> gdepth a < f0 -> Inv m t lx ys -> c_rec lx = None ->
+  wf_list a sep ab (kept (c_filter lx) ys) vs s2 -> length vs < F ->
+  exists lx' ys', run (S F) (GListDef a sep ab) lx c st = (ROk (VList vs) lx', st)
+    /\ Inv m t lx' ys' /\ c_filter lx' = c_filter lx /\ kept (c_filter lx) ys' = s2.
+Proof. exact list_def_ok. Qed.
+Print Assumptions C11_list_default_on_well_formed_input.
+
+Theorem C11_list_on_well_formed_input :
+  forall m, 1 <= tabw m -> forall t, wf_text t ->
+  forall a sep ab f0 F c lx ys st vs s2,
+  F = S (S (S f0)) ->
+  in_core a = true -> S (gdepth a) < f0 -> Inv m t lx ys -> c_rec lx = None ->
+  wf_list (GSomeOf a) sep ab (kept (c_filter lx) ys) vs s2 -> length vs < F ->
+  exists lx' ys', run (S F) (GList a sep ab) lx c st = (ROk (VList vs) lx', st)
+    /\ Inv m t lx' ys' /\ c_filter lx' = c_filter lx /\ kept (c_filter lx) ys' = s2.
+Proof. exact list_ok. Qed.
+Print Assumptions C11_list_on_well_formed_input.
+
+(** [wf_list] is satisfiable: "a , a ;" with items one(a), separator ',', abort ';' *)
+Example C11_wf_list_example :
+  let e k : entry := (mktok k 0, pos_zero, pos_zero, Plain) in
+  wf_list (GOne KA) KComma [KSemi] [e KA; e KComma; e KA; e KSemi] [VTok (mktok KA 0); VTok (mktok KA 0)] [e KSemi].
+Proof.
+  cbv zeta. eapply wl_item; [reflexivity|reflexivity|].
+  eapply wa_sep; [reflexivity|reflexivity| |intros y q E; injection E as <- _; discriminate].
+  eapply wl_item; [reflexivity|reflexivity|]. apply wa_abort. reflexivity.
+Qed.
+Print Assumptions C11_wf_list_example.
 
 (** concrete: list_bounded(1, 2, one a, ',', [';']) on "a,a,a;" stops after two entries and
     leaves the rest *)
